@@ -147,7 +147,11 @@ func (self *TextCommandConverter) ConvertArgs2Flag(lockCommand *LockCommand, arg
 				lockCommand.Expried = uint16(expried)
 				lockCommand.ExpriedFlag |= EXPRIED_FLAG_MILLISECOND_TIME
 			} else {
-				lockCommand.Expried = uint16(expried)
+				if expried%1000 == 0 {
+					lockCommand.Expried = uint16(expried / 1000)
+				} else {
+					lockCommand.Expried = uint16(expried/1000) + 1
+				}
 			}
 			i++
 		case "TX":
@@ -178,7 +182,7 @@ func (self *TextCommandConverter) ConvertArgs2Flag(lockCommand *LockCommand, arg
 				return errors.New("Command Parse TX Value Error")
 			}
 			if timeout > 65535000 {
-				if (timeout/1000)%60 == 0 {
+				if timeout%60000 == 0 {
 					lockCommand.Timeout = uint16(timeout / 60000)
 				} else {
 					lockCommand.Timeout = uint16(timeout/60000) + 1
@@ -188,7 +192,11 @@ func (self *TextCommandConverter) ConvertArgs2Flag(lockCommand *LockCommand, arg
 				lockCommand.Timeout = uint16(timeout)
 				lockCommand.TimeoutFlag |= TIMEOUT_FLAG_MILLISECOND_TIME
 			} else {
-				lockCommand.Timeout = uint16(timeout)
+				if timeout%1000 == 0 {
+					lockCommand.Timeout = uint16(timeout / 1000)
+				} else {
+					lockCommand.Timeout = uint16(timeout/1000) + 1
+				}
 			}
 			i++
 		case "NX":
@@ -568,7 +576,7 @@ func (self *TextCommandConverter) ConvertTextSetEXCommand(textProtocol ITextProt
 	lockCommand.Expried = uint16(expried & 0xffff)
 	if strings.ToUpper(args[0]) == "PSETEX" {
 		if expried > 65535000 {
-			if (expried/1000)%60 == 0 {
+			if expried%60000 == 0 {
 				lockCommand.Expried = uint16(expried / 60000)
 			} else {
 				lockCommand.Expried = uint16(expried/60000) + 1
@@ -578,7 +586,11 @@ func (self *TextCommandConverter) ConvertTextSetEXCommand(textProtocol ITextProt
 			lockCommand.Expried = uint16(expried)
 			lockCommand.ExpriedFlag |= EXPRIED_FLAG_MILLISECOND_TIME
 		} else {
-			lockCommand.Expried = uint16(expried)
+			if expried%1000 == 0 {
+				lockCommand.Expried = uint16(expried / 1000)
+			} else {
+				lockCommand.Expried = uint16(expried/1000) + 1
+			}
 		}
 	} else {
 		if expried > 65535 {
@@ -803,7 +815,7 @@ func (self *TextCommandConverter) ConvertTextExpireCommand(textProtocol ITextPro
 		}
 	case "PEXPIRE":
 		if expried > 65535000 {
-			if (expried/1000)%60 == 0 {
+			if expried%60000 == 0 {
 				lockCommand.Expried = uint16(expried / 60000)
 			} else {
 				lockCommand.Expried = uint16(expried/60000) + 1
@@ -813,12 +825,16 @@ func (self *TextCommandConverter) ConvertTextExpireCommand(textProtocol ITextPro
 			lockCommand.Expried = uint16(expried)
 			lockCommand.ExpriedFlag |= EXPRIED_FLAG_MILLISECOND_TIME
 		} else {
-			lockCommand.Expried = uint16(expried)
+			if expried%1000 == 0 {
+				lockCommand.Expried = uint16(expried / 1000)
+			} else {
+				lockCommand.Expried = uint16(expried/1000) + 1
+			}
 		}
 	case "PEXPIREAT":
 		expried = expried - time.Now().UnixMilli()
 		if expried > 65535000 {
-			if (expried/1000)%60 == 0 {
+			if expried%60000 == 0 {
 				lockCommand.Expried = uint16(expried / 60000)
 			} else {
 				lockCommand.Expried = uint16(expried/60000) + 1
@@ -828,7 +844,11 @@ func (self *TextCommandConverter) ConvertTextExpireCommand(textProtocol ITextPro
 			lockCommand.Expried = uint16(expried)
 			lockCommand.ExpriedFlag |= EXPRIED_FLAG_MILLISECOND_TIME
 		} else {
-			lockCommand.Expried = uint16(expried)
+			if expried%1000 == 0 {
+				lockCommand.Expried = uint16(expried / 1000)
+			} else {
+				lockCommand.Expried = uint16(expried/1000) + 1
+			}
 		}
 	case "PERSIST":
 		lockCommand.Expried = 0x7fff
